@@ -28,7 +28,7 @@ if [ "$(basename "$patch")" != "none" ]; then
 fi
 trap 'git -C /tmp/repo-snap checkout -q -- . ; git -C /tmp/repo-snap clean -fdq -- lang cli editor lib docs 2>/dev/null' EXIT
 for id in "$@"; do
-  out=$(unshare -m bash -c "mount --bind /tmp/repo-snap /repo && mount --bind /tmp/verif-snap /verif && cd /verif && VERIF_SEED=${VERIF_SEED:-0} bin/check $id $tier" 2>&1); code=$?
+  out=$(unshare -m bash -c "mount --bind /tmp/repo-snap /repo && mount --bind /tmp/verif-snap /verif && cd /verif && VERIF_SEED=${VERIF_SEED:-0} bin/check $id $tier" 2>&1 8>&-); code=$?
   nviol=$(printf '%s\n' "$out" | grep -a -c '^VIOLATION')
   sigs=$(printf '%s\n' "$out" | grep -a 'signature:' | sed 's/  tags:.*//; s/^ *signature: //' | sort | uniq -c | sort -rn | head -4 | tr '\n' ';')
   res=$(printf '%s\n' "$out" | grep -a '^RESULT\|^BUILD-ERROR' | head -1)
